@@ -23,13 +23,13 @@ import (
 
 // C09: all input forms give the same result and supplied inputs are not mutated.
 type C09Case struct {
-	WL      CompileWL   `json:"workload"`
-	SrcInfo int         `json:"srcinfo"`
+	WL      CompileWL `json:"workload"`
+	SrcInfo int       `json:"srcinfo"`
 	// ProtoSrcInfo: the supplied descriptor protos carry source code info (as
 	// protoc --include_source_info writes them).
-	ProtoSrcInfo bool `json:"proto_with_source_info,omitempty"`
-	Clients []C09Client `json:"clients"`
-	Sched   Sched       `json:"sched"`
+	ProtoSrcInfo bool        `json:"proto_with_source_info,omitempty"`
+	Clients      []C09Client `json:"clients"`
+	Sched        Sched       `json:"sched"`
 }
 
 type C09Client struct {
